@@ -412,6 +412,31 @@ def check_numbering(ctx, F, rule="E-DDDMP.numbering"):
             if inc[0] > st_[0]:
                 fails.append("a node id is stored before the counter is incremented: ids start at 0, which the format reserves "
                              "(a 0 in a child list marks a terminal)")
+    # .nsuppvars counts exactly the levels the numbering loop does not skip
+    cnt = None
+    for x in H.walk(F.hir[fid]["body"]):
+        if x.get("k") == "slet" and (x.get("p") or {}).get("n") == "nsuppvars":
+            cnt = x.get("e")
+    filt = [y for y in H.walk(cnt or {}) if y.get("k") == "mcall" and y.get("name") == "filter"]
+    pred = None
+    if len(filt) == 1 and filt[0]["a"] and filt[0]["a"][0].get("k") == "closure":
+        pred = filt[0]["a"][0]["body"]
+        while pred.get("k") == "block" and not pred.get("s") and "e" in pred:
+            pred = pred["e"]
+    counts_nonempty = isinstance(pred, dict) and pred.get("k") == "un" and pred.get("o") == "!" and \
+        pred["e"].get("k") == "mcall" and pred["e"].get("name") == "is_empty" and \
+        any(y.get("k") == "mcall" and y.get("name") == "count" for y in H.walk(cnt or {}))
+    skip = None
+    for st in arm.get("s", []):
+        e = st.get("e") or {}
+        if e.get("k") == "if" and any(y.get("k") == "continue" for y in H.walk(e.get("t") or {})):
+            skip = e["c"]
+            break
+    skips_empty = isinstance(skip, dict) and skip.get("k") == "mcall" and skip.get("name") == "is_empty"
+    if not (counts_nonempty and skips_empty):
+        fails.append("`.nsuppvars` is not the number of levels with nodes (`filter(|(_, m)| !m.is_empty()).count()`) while the "
+                     "numbering loop skips `level.is_empty()`: the header count and the `.ids` / `.permids` lists disagree and the "
+                     "importer rejects the file")
     if pairs < 2:
         fails.append("expected the two node-numbering blocks (terminals, inner nodes) with `n += 1; *idx = n`, found %d" % pairs)
     ctx.ob(rule, rule, not fails, "export_common (%s): %s" % (F.where(fid), " || ".join(fails) if fails else
@@ -454,4 +479,59 @@ def check_level_order_checks(ctx, F, rule="E-DDDMP.order"):
                "%s (%s): %s" % (fn_, F.where(fid), "rejects level >= child level (%d comparison(s))" % cnt if ok else
                                 "the node's level is compared with its children's levels by %r, expected %d x `>=` (reject a child on "
                                 "the node's own level or above)" % (found, cnt)))
+    return n
+
+
+def check_strict_mode(ctx, F, rule="E-DDDMP.strictmode"):
+    """Names the format cannot carry are sanitised, and *reported only in strict mode*: every `io::Error::new(..)` the
+    exporter creates (the InvalidInput errors for diagram, variable and function names) lies on the `true` edge of a test
+    of `ExportSettings::strict` and is not reachable from that test's `false` edge without passing the test again.  A
+    weakened guard (`strict || ..`, `!strict`) makes the default, non-strict export fail for names it is documented to
+    sanitise silently."""
+    from lib import cfg
+    n = 0
+    for fid, m in sorted(F.mir.items()):
+        if not fid.startswith(EXP):
+            continue
+        B = cfg.Body(m)
+        blocks = m["blocks"]
+        errs = [i for i, t in B.calls() if (cfg.callee_name(t) or "").endswith("io::Error::new") and not blocks[i]["c"]]
+        if not errs:
+            continue
+        tests = []          # (switch block, true successor, false successor)
+        for i in sorted(B.reach):
+            b = blocks[i]
+            t = b["t"]
+            if t["k"] != "switch" or b["c"]:
+                continue
+            d = cfg.op_place(t["d"])
+            dl = cfg.place_local(d) if d is not None else None
+            if dl is None:
+                continue
+            src = [s for s in b["s"] if s.get("lhs") == dl and (s.get("rv") or {}).get("k") == "use"]
+            if not src:
+                continue
+            p = cfg.op_place(src[-1]["rv"]["op"])
+            if p is None or not any(str(x).startswith(".strict@") for x in cfg.place_proj(p)):
+                continue
+            zero = [blk for v, blk in t["t"] if int(v) == 0]
+            if len(zero) == 1:
+                tests.append((i, t["o"], zero[0]))
+        for e in errs:
+            n += 1
+            def without_edge(a, b):
+                seen, todo = {0}, [0]
+                while todo:
+                    x = todo.pop()
+                    for y in B.succ[x]:
+                        if (x, y) != (a, b) and y not in seen:
+                            seen.add(y)
+                            todo.append(y)
+                return seen
+            # every path from the entry to the error passes the true edge of the `strict` test
+            guards = [s for s, tr, fa in tests if tr != fa and e in B.reachable_from(tr, avoid=(s,)) and e not in without_edge(s, tr)]
+            ctx.ob(rule, "%s:%s:%d" % (rule, F.nice(fid), errs.index(e)), bool(guards),
+                   "%s (%s): %s" % (F.nice(fid), F.where(fid), "error creation #%d is reached only through the true edge of a `strict` test" % errs.index(e)
+                                    if guards else "the error created at call #%d is reachable without `strict` being set: the non-strict export "
+                                    "reports names it is documented to sanitise" % errs.index(e)))
     return n
